@@ -339,12 +339,15 @@ def run(tier):
     with ThreadPoolExecutor(max_workers=4) as ex:
         paths = list(ex.map(record, range(nproc)))
     nlines = nexecs = 0
+    accepted = []
     for k, path in enumerate(paths):
         lines = open(path).read().split("\n")
         nlines += len(lines)
         nexecs += sum(1 for x in lines if '"Reset"' in x) - 1
         verdict, r = validate(path)
         ev.tlc(r, "TracePool free-running executions, file %d" % k)
+        if not verdict:
+            accepted.append(path)
         if verdict:
             ln = verdict[1] if isinstance(verdict[1], int) else 0
             what = lines[ln - 1] if 0 < ln <= len(lines) else "?"
@@ -354,7 +357,7 @@ def run(tier):
     ev.set("free_running_executions_validated", nexecs)
     ev.set("free_running_events_validated", nlines)
     # anti-vacuity: corrupted copies of an accepted trace must be rejected
-    good = open(paths[0]).read().split("\n")
+    good = open(accepted[0]).read().split("\n") if accepted else []
     muts = {}
     deq = [i for i, x in enumerate(good) if '"DeqRet"' in x and '"t":0' not in x]
     cbe = [i for i, x in enumerate(good) if '"CbEnd"' in x]
@@ -372,7 +375,7 @@ def run(tier):
         verdict, r = validate(mp)
         rejected[name] = verdict is not None
     ev.set("corrupted_traces_rejected", rejected)
-    if not rejected or not all(rejected.values()):
+    if accepted and (len(rejected) < 3 or not all(rejected.values())):
         print("SELF-CHECK-FAILED: corrupted pool traces accepted: %s" % rejected)
         ev.write()
         return 2
